@@ -191,6 +191,42 @@ def run(ck, facts):
         if True:
             ck.expect(ok_order, "R1", label + "/borrow_map-after-visits", "", "borrow_map() of the visitor is not consumed after all visit_param calls (%d consumers)" % len(bm), C.loc(f))
 
+    # the backends that copy slice fields of a struct into arenas (js, dart) use the borrow information of EVERY visited value -- receiver included: the
+    # ParamBorrowInfo returned by visit_param is bound and inspected for its Struct case (whose lifetime map selects the arenas tied to the output)
+    for path, label in gens[:2]:
+        f = tool.fn(path)
+        holders = C.fns_inl(tool, f, depth=1)
+        nv = 0
+        for g_ in holders:
+            gb = C.fn_body(g_)
+            bound_inits = {id(C.strip(n["init"])): n for n in C.walk(gb) if n.get("k") == "letst" and n.get("init") is not None}
+            for n in C.walk(gb):
+                if not (n.get("k") == "mcall" and n.get("m") == "visit_param"):
+                    continue
+                nv += 1
+                is_self = any(l_ in ("this", "self") for l_ in C.str_lits(n["a"][1])) if len(n.get("a") or []) > 1 else False
+                let = bound_inits.get(id(n))
+                used = False
+                if let is not None and let["pat"].get("k") == "bind":
+                    lid = let["pat"].get("id")
+                    for x in C.walk(gb):
+                        pats = []
+                        if x.get("k") == "if":
+                            c_ = C.strip_keep_macro(x["c"])
+                            if isinstance(c_, dict) and c_.get("k") == "let" and any(y.get("k") == "local" and y.get("id") == lid for y in C.walk(c_.get("init"))):
+                                pats.append(c_.get("pat"))
+                        if x.get("k") == "match" and any(y.get("k") == "local" and y.get("id") == lid for y in C.walk(x.get("s"))):
+                            pats += [a_["pat"] for a_ in x["arms"]]
+                        for p_ in pats:
+                            for q in C.walk(p_) if isinstance(p_, dict) else []:
+                                if q.get("k") == "variant" and q.get("v") == "Struct" and "ParamBorrowInfo" in (q.get("adt") or ""):
+                                    used = True
+                key = "%s/%s-borrow-info-used" % (label, "self" if is_self else "param")
+                ck.expect(used, "R1", key, "Struct case inspected", "%s discards (or never inspects the Struct case of) the borrow information visit_param returns for %s: slice fields of a struct the output borrows from are "
+                          "copied into the call's temporary arena and released while the returned value still points into them" % (label, "the receiver" if is_self else "a parameter"), C.loc(g_, n.get("ln")))
+        if nv < 2:
+            ck.bad("R1", label + "/visit_param-floor", "only %d visit_param calls found (2 counted: self, params)" % nv, C.loc(f))
+
     # ---------------- R2
     tl = core.fn("hir::types::Type::lifetimes")
     mt = next((n for n in C.walk(C.fn_body(tl)) if n.get("k") == "match" and (n.get("sadt") or "").endswith("hir::types::Type")), None)
